@@ -76,7 +76,7 @@ def run(seed, n):
             for m in mutants(p, rnd, 2):
                 pats.append((m, 'mutant'))
     # fixed corpus of patterns on which the model once disagreed (runs on every validation)
-    cp = os.path.join(os.path.dirname(os.path.abspath(__file__)), '..', 'corpus', 'patterns.jsonl')
+    cp = os.path.join(os.path.dirname(os.path.abspath(__file__)), '..', 'corpus', 'engine', 'patterns.jsonl')
     if os.path.exists(cp):
         for l in open(cp):
             l = l.strip()
